@@ -116,7 +116,7 @@ def main(argv):
     report.rule = (
         "_sort_by_gid on random coverages/parallel arrays/gid maps (with duplicates, empty and absent parallel lists); "
         "real reorder_glyphs + save + reload on synthetic fonts containing every GSUB/GPOS/GDEF subtable type and format of "
-        "the schema (feaLib + hand-built Context formats 1/2/3), with glyf composites, hmtx, cmap and COLR v0/v1, under random "
+        "the schema (feaLib + hand-built Context formats 1/2/3), with glyf composites or CFF / CFF2 charstrings (F19), hmtx, cmap and COLR v0/v1, under random "
         "permutations keeping .notdef first; non-trivial = order actually changed"
     )
     st = proof_gate(report)
